@@ -661,6 +661,64 @@ example :
     res.mols.map (fun m => m.atoms.map (·.mods)) = [[["N-ter".toList], [], ["C-ter".toList]]] := by
   decide
 
+/-! ## 5b. A processor object used more than once -/
+
+/-- **The processor is stateless as far as results go**: when ONE `AnnotateMutMod` object is applied
+to any sequence of systems and single molecules, every application marks, raises and reports
+exactly what a freshly constructed processor with the same requests does on that input alone —
+the k-th answer depends only on the k-th input (the bookkeeping list is emptied by `run_system`
+and never influences marks or errors). -/
+theorem processor_stateless (lib : Lib) (p : Proc) (ops : List Op) :
+    runHistory lib p ops = ops.map (freshApply lib p.mods p.muts) := by
+  unfold runHistory
+  induction ops generalizing p with
+  | nil => rfl
+  | cons op ops ih =>
+    simp only [runHistoryGen, List.map_cons]
+    have hcfg : (procStepGen true lib p op).1.mods = p.mods ∧ (procStepGen true lib p op).1.muts = p.muts := by
+      cases op <;> exact ⟨rfl, rfl⟩
+    rw [ih, hcfg.1, hcfg.2]
+    congr 1
+    cases op with
+    | system mols => rfl
+    | molecule m =>
+      simp only [freshApply, procStep, procStepGen]
+      obtain ⟨h1, h2⟩ := annotateMol_counts_indep lib p.mods p.muts m p.counts []
+      rw [h1, h2]
+
+/-- the requests the processor was built with are never changed by using it -/
+theorem processor_config_unchanged (lib : Lib) (p : Proc) (op : Op) :
+    (procStep lib p op).1.mods = p.mods ∧ (procStep lib p op).1.muts = p.muts := by
+  cases op <;> exact ⟨rfl, rfl⟩
+
+/-- a system run of a reused processor is `runSystem` on that system -/
+theorem reused_system_run (lib : Lib) (p : Proc) (mols : List Mol) :
+    (procStep lib p (.system mols)).2 = .system (runSystem lib p.mods p.muts mols) := by
+  simp only [procStep, procStepGen, if_true, resultOf, runSystem]
+
+def histLib : Lib := { protein := ["GLY".toList, "ALA".toList], modifications := [], blocks := ["GLY".toList] }
+def histRes (i : Int) (n : String) : ResKey :=
+  { chain := some "A".toList, resid := some i, resname := some n.toList, icode := none }
+/-- a chain of three one-atom residues -/
+def histMol (a b c : String) : Mol :=
+  { atoms := [⟨0, histRes 1 a, [], []⟩, ⟨1, histRes 2 b, [], []⟩, ⟨2, histRes 3 c, [], []⟩], edges := [(0, 1), (1, 2)] }
+def histProc : Proc :=
+  { mods := [], muts := [{ spec := { chain := none, resname := some "ALA".toList, resid := some 2, icode := none },
+                           target := "GLY".toList }], counts := [] }
+def reportsOf : OpResult → List Report
+  | .system r => r.reports
+  | .molecule _ _ => []
+
+/-- **witness of the behaviour before fix ed8f8af** (the list is never emptied): `ALA2` is in the
+first system and absent from the second; the reused processor does not report it for the second
+system, the fixed one does. -/
+theorem old_reuse_hides_report :
+    (runHistoryGen false histLib histProc [.system [histMol "GLY" "ALA" "GLY"], .system [histMol "GLY" "GLY" "GLY"]]).map
+        (fun r => (reportsOf r).length) = [0, 0] ∧
+    (runHistory histLib histProc [.system [histMol "GLY" "ALA" "GLY"], .system [histMol "GLY" "GLY" "GLY"]]).map
+        (fun r => (reportsOf r).length) = [0, 1] := by
+  decide
+
 /-! ## 6. Command line -/
 
 /-- `martinize2` keeps the given `-modify`, `-nter`, `-cter` requests in order and only appends. -/
